@@ -100,6 +100,45 @@ Proof.
       exfalso. apply Hn. apply Hiff. reflexivity.
 Qed.
 
+(* the cached product, when present at the top of iteration j, is op(v_j): every iteration
+   orthogonalises the product of its own newest Lanczos vector *)
+Lemma ktrace_fresh : forall fuel j cache, (cache = None \/ cache = Some j) ->
+  Forall (fun e => fst (snd e) = fst e)
+         (ktrace ar fixed n2 err1 err2 err2c norm_tol exp_tol fuel j cache).
+Proof.
+  induction fuel as [|f IH]; intros j cache Hc; cbn [ktrace]; [constructor|].
+  assert (Hu : match cache with Some k => k | None => j end = j) by (destruct Hc as [->| ->]; reflexivity).
+  rewrite Hu. destruct (breakdown_at ar n2 norm_tol j).
+  - constructor; [reflexivity|constructor].
+  - constructor; [reflexivity|].
+    destruct (estimate_at ar fixed err1 err2 err2c exp_tol j); [constructor|].
+    apply IH. destruct (confirm_called ar fixed err1 err2 exp_tol j); [right|left]; reflexivity.
+Qed.
+
+(* one trace entry per executed iteration *)
+Lemma ktrace_length : forall fuel j cache r, loop fuel j = Ok r ->
+  j + length (ktrace ar fixed n2 err1 err2 err2c norm_tol exp_tol fuel j cache) = k_iters r.
+Proof.
+  induction fuel as [|f IH]; intros j cache r H; cbn [kloop ktrace] in *.
+  - inversion H; subst. cbn. lia.
+  - destruct (breakdown_at ar n2 norm_tol j).
+    + inversion H; subst. cbn. lia.
+    + destruct (estimate_at ar fixed err1 err2 err2c exp_tol j).
+      * inversion H; subst. cbn. lia.
+      * cbn [length]. match goal with |- context [ktrace _ _ _ _ _ _ _ _ f (S j) ?c] => pose proof (IH (S j) c r H) end. lia.
+Qed.
+
+Lemma cached_product_fresh : forall max_dim,
+  Forall (fun e => fst (snd e) = fst e)
+         (ktrace ar fixed n2 err1 err2 err2c norm_tol exp_tol max_dim 0 None) /\
+  (forall r, loop max_dim 0 = Ok r ->
+     length (ktrace ar fixed n2 err1 err2 err2c norm_tol exp_tol max_dim 0 None) = k_iters r).
+Proof.
+  intros. split.
+  - apply ktrace_fresh. left; reflexivity.
+  - intros r H. exact (ktrace_length max_dim 0 None H).
+Qed.
+
 End ControlProofs.
 
 (* ---------------------------------------------------------------------------------------- *)
